@@ -816,6 +816,85 @@ theorem C01_history_invariant (hrt : ∀ k v, cv.toIp k (cv.toSi k v) = v) (ops 
 
 end histories
 
+/-! ### The operation that triggers the lazy load (round 6)
+
+Class of change: one output composed of parts rendered at different load states of the object (a method split in
+two, the lazy load moved behind the rendering of the header).  In the model every operation that needs the data
+loads it FIRST and renders everything from the loaded state. -/
+
+section firstLoad
+variable {Tok Val H : Type} (c : Codec Tok Val) (flag : Nat → Bool) (cv : Conv Val) (src : Src Val H)
+
+/-- **The answer does not depend on the load state at which the operation starts.**  Every operation that needs
+    the hourly data (data reads, unit conversions, `to_file_string`, the failing write, `to_wea`, `to_mos`,
+    `to_dict`, value assignment) gives, on an object in ANY load state (nothing read, header read, all read),
+    the same answer and the same next state as on the object whose data was loaded first. -/
+theorem C01_first_load_same_step (o : Obj Val H) (ho : o.WF) (op : Op Val H) (hop : op.needsData = true) :
+    step c flag cv src o op = step c flag cv src (o.loadData src) op := by
+  rw [step_of_loaded src c flag cv _ (loadData_loaded src o ho)]
+  cases op <;> simp_all [step, Op.needsData]
+
+/-- ... in particular what such an operation answers as the FIRST operation of a lazy object is what `observe`
+    (the loaded object) answers. -/
+theorem C01_first_load_same_answer (o : Obj Val H) (ho : o.WF) (op : Op Val H) (hop : op.needsData = true) :
+    (step c flag cv src o op).2 = observe c flag cv src o op := by
+  rw [observe, ← C01_first_load_same_step c flag cv src o ho op hop]
+
+/-- **The leap field above the written rows is the one the loaded object has**, and the header slots are the loaded
+    object's: for an object whose data was not loaded before the write it is the flag `_import_body` settled
+    (`src.body.leap`: for a file without the field, the number of rows), never the header-only value. -/
+theorem C01_first_write_header_from_loaded (hrt : ∀ k v, cv.toIp k (cv.toSi k v) = v) (o : Obj Val H)
+    (sl : List H) (lp : Option Bool) (rows : List (List Tok))
+    (h : (step c flag cv src o .write).2 = .text sl lp rows) :
+    sl = (o.loadData src).slots ∧ lp = (o.loadData src).st.leap ∧
+      (o.st.dataLoaded = false → lp = some src.body.leap) := by
+  simp only [step, stepLoaded, toFileString_snd c flag cv _ hrt] at h
+  split at h
+  · injection h with h1 h2 h3
+    refine ⟨h1.symm, h2.symm, fun hd => ?_⟩
+    rw [← h2]
+    simp [Obj.loadData, hd]
+  · cases h
+
+/-- **The split variant** (header rendered before the data load, `stepWriteHeaderFirst`) writes, on a lazy object,
+    the header-only leap field `src.leapHdr` above the same rows ... -/
+theorem C01_header_before_load_leap (hrt : ∀ k v, cv.toIp k (cv.toSi k v) = v) (dflt : List H)
+    (sl : List H) (lp : Option Bool) (rows : List (List Tok))
+    (h : (step c flag cv src (Obj.lazy dflt) .write).2 = .text sl lp rows) :
+    (stepWriteHeaderFirst c flag cv src (Obj.lazy dflt)).2 = .text src.slots src.leapHdr rows := by
+  simp only [step, stepLoaded, toFileString_snd c flag cv _ hrt] at h
+  simp only [stepWriteHeaderFirst]
+  split at h
+  · rename_i rws hr
+    injection h with h1 h2 h3
+    subst h3
+    simp [Obj.lazy, Obj.loadHeader]
+  · cases h
+
+/-- ... so it differs from `to_file_string` exactly on the files that leave the flag to the body: whenever the header
+    field is not the flag the rows give (no field and 8784 rows: `No` above a leap year of data, a text that cannot
+    be read back), the split write and the write are different texts - although both agree once the data is loaded
+    (`C01_first_load_same_step`), which is why only the FIRST data-loading operation shows it. -/
+theorem C01_header_before_load_counterexample (hrt : ∀ k v, cv.toIp k (cv.toSi k v) = v) (dflt : List H)
+    (sl : List H) (lp : Option Bool) (rows : List (List Tok))
+    (h : (step c flag cv src (Obj.lazy dflt) .write).2 = .text sl lp rows)
+    (hsrc : src.leapHdr ≠ some src.body.leap) :
+    (stepWriteHeaderFirst c flag cv src (Obj.lazy dflt)).2 ≠ (step c flag cv src (Obj.lazy dflt) .write).2 := by
+  have h2 := (C01_first_write_header_from_loaded c flag cv src hrt _ sl lp rows h).2.2 (by simp [Obj.lazy])
+  rw [C01_header_before_load_leap c flag cv src hrt dflt sl lp rows h, h, h2]
+  intro he
+  injection he with _ e2 _
+  exact hsrc e2
+
+/-- Non-vacuity: a file without the leap field whose body is a leap year (no columns: the smallest full table). -/
+example : ∃ rows : List (List Nat),
+    (step (⟨fun _ t => some t, id⟩ : Codec Nat Nat) (fun _ => true) ⟨fun _ v => v, fun _ v => v⟩
+      (⟨none, ⟨0, true, []⟩, [7]⟩ : Src Nat Nat) (Obj.lazy [0]) .write).2 = .text [7] (some true) rows := by
+  refine ⟨(transp (hoursInYear true) ([] : List (List Nat))).map (·.map id), ?_⟩
+  simp [step, stepLoaded, Obj.lazy, Obj.loadData, Obj.loadHeader, St.toFileString, St.toSi, writeBody, onFlagged]
+
+end firstLoad
+
 /-- The loading step of the state machine is `St.loadData` / `importBody` of the file-level model: when the
     body of the file is accepted (`importBody` answers `b`), loading the lazy object gives exactly the state
     the state machine continues with (so the body theorems above speak about the columns it holds). -/
